@@ -43,6 +43,9 @@ type tokSlot struct {
 
 type c11Case struct {
 	Slots []tokSlot `json:"slots"`
+	// OneLine: every token of the mix that is introduced by a precedence
+	// line shares ONE %left line (literals and names mixed, in slot order)
+	OneLine bool `json:"one_line,omitempty"`
 }
 
 func c11Menu() []tokSlot {
@@ -136,6 +139,13 @@ func (c *c11Case) spec() (*gram.Spec, map[string]int, []string) {
 		order = append(order, name)
 		rule.R = append(rule.R, name)
 	}
+	if c.OneLine && len(s.Prec) > 1 {
+		one := gram.PrecLevel{Assoc: "nonassoc"}
+		for _, p := range s.Prec {
+			one.Toks = append(one.Toks, p.Toks...)
+		}
+		s.Prec = []gram.PrecLevel{one}
+	}
 	s.Rules = []gram.Rule{rule}
 	s.LateTokens = later
 	return s, want, order
@@ -153,21 +163,32 @@ func c11Work(w *Worker) {
 	var rec func()
 	rec = func() {
 		if len(cur) > 0 {
-			c := &c11Case{Slots: append([]tokSlot(nil), cur...)}
-			if c.valid() {
-				if w.Mine(idx) {
-					w.Begin(idx, c)
-					if c11Eval(w, c, false) {
-						stride := int64(5)
-						if w.Thorough() {
-							stride = 23
-						}
-						if (idx/int64(w.N))%stride == 0 {
-							compile = append(compile, c)
+			nprec := 0
+			for _, sl := range cur {
+				if sl.Kind == "preconly" || sl.Kind == "litprec" || sl.Kind == "precthennum" {
+					nprec++
+				}
+			}
+			for _, one := range []bool{false, true} {
+				if one && nprec < 2 {
+					continue
+				}
+				c := &c11Case{Slots: append([]tokSlot(nil), cur...), OneLine: one}
+				if c.valid() {
+					if w.Mine(idx) {
+						w.Begin(idx, c)
+						if c11Eval(w, c, false) {
+							stride := int64(5)
+							if w.Thorough() {
+								stride = 23
+							}
+							if (idx/int64(w.N))%stride == 0 {
+								compile = append(compile, c)
+							}
 						}
 					}
+					idx++
 				}
-				idx++
 			}
 		}
 		if len(cur) == maxK {
@@ -203,7 +224,7 @@ type c11Built struct {
 func c11Eval(w *Worker, c *c11Case, withCompile bool) bool {
 	w.Count("evaluations", 1)
 	spec, want, order := c.spec()
-	key := string(mustJSON(c.Slots))
+	key := string(mustJSON(c))
 	text := spec.Render()
 	bad := func(kind, msg string) {
 		w.Violate("C11|"+kind+"|"+key, fmt.Sprintf("%s: token mix %s: %s", kind, key, msg), c, map[string]interface{}{"grammar_text": text})
